@@ -17,6 +17,19 @@ pub struct PrintEvent {
     pub via_return: bool,               // the print or an active call is evaluated inside a `return` expression
 }
 
+// A call of a named function about to be made (arguments already evaluated):
+// where an undefined-name failure of that call would surface.
+#[derive(Clone, Debug)]
+pub struct CallEvent {
+    pub node: NodeId,
+    pub off: u64, // stdout bytes written before
+    pub func: Option<String>,
+    pub chain: Vec<(NodeId, String)>,
+    pub chain_in_slot: Vec<bool>,
+    pub in_interp: bool,
+    pub via_return: bool,
+}
+
 enum Flow {
     Normal,
     Break,
@@ -41,6 +54,7 @@ pub struct Walker<'a> {
     root_in_return: bool,
     top_stmt: usize,
     pub events: Vec<PrintEvent>,
+    pub calls: Vec<CallEvent>,
     off: u64,
     pub overflow: bool,
 }
@@ -49,7 +63,7 @@ const MAX_EVENTS: usize = 400;
 
 impl<'a> Walker<'a> {
     pub fn new(prog: &'a Prog, removed: &'a std::collections::BTreeSet<usize>) -> Walker<'a> {
-        Walker { prog, removed, frames: vec![], interp: 0, loops: 0, root_in_return: false, top_stmt: 0, events: vec![], off: 0, overflow: false }
+        Walker { prog, removed, frames: vec![], interp: 0, loops: 0, root_in_return: false, top_stmt: 0, events: vec![], calls: vec![], off: 0, overflow: false }
     }
 
     pub fn run(&mut self) {
@@ -258,6 +272,26 @@ impl<'a> Walker<'a> {
                 }
                 if let Callee::Returned(inner, _) = callee {
                     self.expr(inner);
+                }
+                if !matches!(callee, Callee::Anon(_) | Callee::Returned(..)) {
+                    if self.calls.len() < 4 * MAX_EVENTS {
+                        let mut chain = vec![];
+                        let mut chain_in_slot = vec![];
+                        for i in (0..self.frames.len()).rev() {
+                            chain_in_slot.push(self.frames[i].interp);
+                            let container = if i == 0 { "<root>".to_string() } else { self.prog.fns[self.frames[i - 1].fn_id].display() };
+                            chain.push((self.frames[i].call_node, container));
+                        }
+                        self.calls.push(CallEvent {
+                            node: *node,
+                            off: self.off,
+                            func: self.frames.last().map(|f| self.prog.fns[f.fn_id].display()),
+                            chain,
+                            chain_in_slot,
+                            in_interp: self.interp > 0 || self.frames.iter().any(|f| f.interp),
+                            via_return: self.root_in_return || self.frames.iter().any(|f| f.in_return),
+                        });
+                    }
                 }
                 let fid = callee.fn_id();
                 let f = &self.prog.fns[fid];
